@@ -29,6 +29,8 @@ import MajoranaVerif.Proofs.Mvp63Witness
 import MajoranaVerif.Proofs.Mvp61Fwd
 import MajoranaVerif.Proofs.Mvp61Cfg
 import MajoranaVerif.Proofs.Mvp63MapOrder
+import MajoranaVerif.Proofs.Mvp70
+import MajoranaVerif.Proofs.Mvp70Witness
 open GoInt Model.Seq Proofs.Seq
 
 namespace Props.C12
@@ -1012,5 +1014,48 @@ theorem mvp63_maporder_only_with_two_producers (app : App) (ctx : Model.Context)
   · rename_i s hs
     exact Proofs.Mvp61Cfg.runFrom_mapOrder app fuel s 0 (Proofs.Mvp61Cfg.init63_cfg hs).2.2 w h
   · cases h
+
+end Props.C12
+
+/-! ## MVP-7.0 (package M70): lower bound, and the MSI protocol at work
+
+`Model.Mvp70` is the cycle-accurate model of `proc/mvp7-0`: `Model.Mvp61` in MVP-6.3's configuration for the fetch, decode,
+control and write units, the branch unit and the rename tables, plus one L1D per core behind a cache controller (`cc.go`:
+the closure states of its read / write / snoop coroutines) and the MSI directory (`msi.go`: states, semaphores, snoop
+commands).  Tied to the Go machine with 1, 2, 3 and 4 cores by exact agreement of status, cycle count, tick count and final
+registers and memory on every generated case (fields `m70pK` of the driver, thorough tier) whose result does not depend on
+Go's map iteration order (`maporder`: the forwarding choice inherited from MVP-6.3, or two snoop requests pending to one
+core). -/
+namespace Props.C12
+
+/-- **C12 lower bound, MVP-7.0**: with `par` cores at most `par` instructions are executed per tick, and the cycle counter
+is at least `executed / par`.  For every run. -/
+theorem mvp70_lower_bound (app : App) (ctx : Model.Context) (par fuel : Nat) :
+    (Model.Mvp70.run app ctx par fuel).final.base.executed ≤ par * (Model.Mvp70.run app ctx par fuel).ticks ∧
+    ((Model.Mvp70.run app ctx par fuel).final.base.executed : Int) ≤
+      par * (Model.Mvp70.run app ctx par fuel).final.base.cycles :=
+  Proofs.Mvp70.run_executed_le app ctx par fuel
+
+/-- Non-vacuity: the two-core run of `Proofs.Mvp61Witness.memApp` executes 2 instructions in 1249 cycles -/
+example : (Model.Mvp70.run Proofs.Mvp61Witness.memApp (Proofs.Mvp61Witness.ctx0 128) 2 2000).final.base.cycles = 1249 ∧
+    (Model.Mvp70.run Proofs.Mvp61Witness.memApp (Proofs.Mvp61Witness.ctx0 128) 2 2000).final.base.executed = 2 := by
+  obtain ⟨_, a, _, b, _⟩ := Proofs.Mvp70Witness.obs_eq Proofs.Mvp70Witness.mem_p2
+  exact ⟨a, b⟩
+
+/-- **the MSI protocol keeps the store MVP-6.1 loses** (the witness of KF-ooo-mem / `mvp61_loses_store`:
+`lb t2, 7(zero); sh zero, 4, zero`, memory all `0x11`).  MVP-7.0 with one core and with two cores ends normally with the
+half word stored (`Proofs.Mvp61Witness.stored`, as the unpipelined machine); with two cores the load runs on core 0 and the
+store on core 1, whose `lock` sends core 0 ONE snoop command (none with one core), at the price of 310 more cycles. -/
+theorem mvp70_msi_keeps_store :
+    (Model.Mvp70.run Proofs.Mvp61Witness.memApp (Proofs.Mvp61Witness.ctx0 128) 1 2000).halt = some .offEnd ∧
+    (Model.Mvp70.run Proofs.Mvp61Witness.memApp (Proofs.Mvp61Witness.ctx0 128) 1 2000).final.msi.nextCmd = 0 ∧
+    (Model.Mvp70.run Proofs.Mvp61Witness.memApp (Proofs.Mvp61Witness.ctx0 128) 1 2000).final.base.ctx.Memory.take 8 = Proofs.Mvp61Witness.stored ∧
+    (Model.Mvp70.run Proofs.Mvp61Witness.memApp (Proofs.Mvp61Witness.ctx0 128) 2 2000).halt = some .offEnd ∧
+    (Model.Mvp70.run Proofs.Mvp61Witness.memApp (Proofs.Mvp61Witness.ctx0 128) 2 2000).final.base.executed = 2 ∧
+    (Model.Mvp70.run Proofs.Mvp61Witness.memApp (Proofs.Mvp61Witness.ctx0 128) 2 2000).final.msi.nextCmd = 1 ∧
+    (Model.Mvp70.run Proofs.Mvp61Witness.memApp (Proofs.Mvp61Witness.ctx0 128) 2 2000).final.base.ctx.Memory.take 8 = Proofs.Mvp61Witness.stored := by
+  obtain ⟨a, _, _, _, b, _, c⟩ := Proofs.Mvp70Witness.obs_eq Proofs.Mvp70Witness.mem_p1
+  obtain ⟨d, _, _, e, f, _, g⟩ := Proofs.Mvp70Witness.obs_eq Proofs.Mvp70Witness.mem_p2
+  exact ⟨a, b, c, d, e, f, g⟩
 
 end Props.C12
